@@ -86,14 +86,65 @@ def _reads(P, ci, attr):
     return False
 
 
+def _eq_semantics(P, res, evalnode, eq):
+    """EvalNode.__eq__ on terms: two nodes are equal iff the other is an instance of this node's class and *every* attribute named
+    in __slots__ compares equal (all 2^3 outcomes for a class with three slots, plus the foreign-class case)."""
+    import itertools
+    from ..symex import Sym, T, SList, Engine, show
+    A, B = Sym('NODE_A'), Sym('NODE_B')
+    slots = ['first', 'second', 'third']
+    ok = True
+    for same_class in (True, False):
+        for outcome in itertools.product((True, False), repeat=len(slots)):
+            def on_attr(base, attr, ex):
+                if base in (A, B) and attr == '__slots__':
+                    return SList(list(slots))
+                return NotImplemented
+
+            def on_isinstance(v, c, ex, _s=same_class):
+                return _s
+
+            def on_call(fn, fv, rc, args, kw, ex, node):
+                if fn == 'type' and len(args) == 1:
+                    return T('typeof', (args[0],))
+                return NotImplemented
+
+            def oracle(term, ex, _o=outcome):
+                if isinstance(term, T) and term.op == 'cmp' and term.args[0] in ('==', '!='):
+                    l, r = term.args[1], term.args[2]
+                    for i, sname in enumerate(slots):
+                        if {l, r} == {T('attr', (A, sname)), T('attr', (B, sname))}:
+                            return _o[i] == (term.args[0] == '==')
+                    if isinstance(l, T) and l.op == 'typeof' and isinstance(r, T) and r.op == 'typeof':
+                        return same_class == (term.args[0] == '==')
+                return None
+            paths = Engine(P, on_attr=on_attr, on_isinstance=on_isinstance, on_call=on_call, oracle=oracle).paths(eq, {'self': A, eq.params[1]: B})
+            want = same_class and all(outcome)
+            for p in paths:
+                if p.decisions:
+                    raise AnalysisError(f'{eq.fq}: undecided test `{show(p.decisions[0][0])[:60]}`')
+                got = p.value if p.outcome == 'return' else p.outcome
+                if got is NotImplemented or (isinstance(got, T) and got.op == 'global' and str(got.args[0]).endswith('NotImplemented')):
+                    got = False if not same_class else got
+                if got is not want and ok:
+                    ok = False
+                    res.fail(eq.fq, 'eq-semantics', f'EvalNode.__eq__ must hold iff the other node is an instance of the same class and every '
+                             f'attribute in __slots__ is equal: with {"the same" if same_class else "a foreign"} class and attribute comparisons '
+                             f'{dict(zip(slots, outcome))} it gives {got}; ORDER BY / GROUP BY expressions are matched with the targets through '
+                             f'this comparison', loc(eq))
+    if ok:
+        res.ok({'method': eq.fq, 'cases': 2 * 2 ** len(slots), 'equal_iff': 'same class and all __slots__ attributes equal'})
+
+
 def rule_eqfaith(P) -> RuleResult:
     res = RuleResult('R-EQFAITH')
     res.exhaustive = True
     reg = registry.get(P)
     evalnode = P.cls(QC, 'EvalNode')
     eq = evalnode.methods.get('__eq__')
-    if eq is None or '__slots__' not in ast.unparse(eq.node) or 'isinstance' not in ast.unparse(eq.node):
-        raise AnalysisError('EvalNode.__eq__ no longer compares type and __slots__ attributes: rule not applicable as written')
+    if eq is None:
+        raise AnalysisError('anchor vanished: EvalNode.__eq__')
+    _eq_semantics(P, res, evalnode, eq)
     n = 0
     for ci in P.all_classes():
         try:
